@@ -134,7 +134,18 @@ class CoroutineProcessor(Processor):
         if state != CoroutineState.TERMINATED:
             raise ValueError('Cannot start the same generator twice')
 
-        self._active_queue.append(generator)
+        # A kill may still be pending for this generator. Apply it now,
+        # so that the generator is not queued (and later dropped) twice
+        if generator in self._kill_queue:
+            self._kill_queue.discard(generator)
+            waiting_gen = self._generators[generator]
+            if waiting_gen is not None:
+                # Leave a placeholder in the heap, dropped when reached
+                waiting_gen.generator = None
+                self._active_queue.append(generator)
+            # Otherwise it is still in the active queue: keep its place
+        else:
+            self._active_queue.append(generator)
         self._generators[generator] = None
         promise = CoroutinePromise(generator, self)
         self._promises[generator] = promise
@@ -201,6 +212,10 @@ class CoroutineProcessor(Processor):
                    and self._timer >= self._wait_queue[0].wait_time):
                 gen = heapq.heappop(self._wait_queue).generator
 
+                # Placeholder of a coroutine killed and started again
+                if gen is None:
+                    continue
+
                 # If a kill was pending, just drop the coroutine
                 if gen in self._kill_queue:
                     del self._generators[gen]
@@ -237,6 +252,8 @@ class CoroutineProcessor(Processor):
             except StopIteration as exception:
                 gen = self._active_queue.popleft()
                 del self._generators[gen]
+                # It may have killed itself during its last step
+                self._kill_queue.discard(gen)
                 self._promises[gen].value = exception.value
                 del self._promises[gen]
                 continue        # Do not rotate if last item was popped
